@@ -6,3 +6,4 @@
 -/
 import GeoProofs.Props.C19
 import GeoProofs.Props.FloatBridge
+import GeoProofs.Props.FloatBridgeRect
